@@ -25,7 +25,7 @@ from . import common
 
 ID = "C02"
 LEVEL = "exploration"
-KNOBS = {"p_feedback": 0.4, "p_slow_feedback": 0.6, "p_attempt_timeout": 0.2, "p_generous": 0.12, "p_overshoot": 0.5, "p_wall_jumps": 0.6, "p_hostile": 0.3, "p_budget": 0.1, "p_abort": 0.05,
+KNOBS = {"p_firing_timeout": 0.1, "p_feedback": 0.4, "p_slow_feedback": 0.6, "p_attempt_timeout": 0.2, "p_generous": 0.12, "p_overshoot": 0.5, "p_wall_jumps": 0.6, "p_hostile": 0.3, "p_budget": 0.1, "p_abort": 0.05,
          "p_decisions": 0.1, "p_handler": 0.2, "p_ok": 0.08, "p_retryable": 0.95, "p_per_class": 0.15, "p_default": 0.95}
 RULE = ("seeded swarm with boundary-biased timings: deadline steered to elapsed-1us/==/+1us at a failure or after a "
         "sleep, sleeper overshoots, strategies asking for more than remains (and NaN/inf/negatives), wall-clock jumps "
